@@ -132,7 +132,8 @@ DoLookup(e) ==
   \* the recovery lookup is payload-hash-checked: p = 0 means the query carried no payload hash
   /\ bad' = First(<< <<"C29_LookupWithoutPayloadHash", e.p \in Pays>> >>)
   /\ wf' = (wf /\ e.c \in Chans /\ e.res.t \in {"ok", "miss"}
-               /\ (e.p \in Pays => LookupOf(e.c, e.k, e.p) = (IF e.res.t = "ok" THEN e.res ELSE RMiss)))
+               /\ (e.res.t = "miss" => e.res = RMiss)
+               /\ (e.p \in Pays => LookupOf(e.c, e.k, e.p) = e.res))
   /\ UNCHANGED <<cfg, items, res, nbat, log, effdone, stops, stopping, open, disp, fresh, effOpen, stopRet>>
   /\ KeepIdle
 
